@@ -359,7 +359,7 @@ class Unit:
                 self._baseline = {}
         return self._baseline
 
-    def generate(self, repo, probe=False, drop=(), inline=(), shift=None, skip_asserts=None):
+    def generate(self, repo, probe=False, drop=(), inline=(), shift=None, skip_asserts=None, iso_off=()):
         """returns (text, info) ; info lists functions under contract, rules fired, splice ids.
         drop: splice ids (proof hints) to leave out.
         inline: names of helper functions that are not part of the unit (an edit extracted them out of an item under contract):
@@ -374,6 +374,9 @@ class Unit:
         self._shift = dict(shift or {})
         # {generated item id@@path: ordinals of debug assertions an edit ADDED that are erased instead of checked (driver decides)}
         self._skip_asserts = dict(skip_asserts or {})
+        # generated item ids whose loops are verified WITHOUT loop isolation (they see the facts established before them): the driver
+        # asks for it only on an edited item, so that a value an edit hoisted into a local before a loop needs no new invariant
+        self._iso_off = set(iso_off or ())
         base = self._load_baseline()
         for kind, part in self.parts:
             if kind == "raw":
@@ -454,6 +457,10 @@ class Unit:
                 info.setdefault("inlined_items", []).append(sid_base)      # R9h: ids of the items that had a helper inlined
             if spec.kind in ("fn", "region"):
                 text, n_probe = self._splice_fn(text, spec, sid_base, info, probe and not spec.noprobe)
+            if spec.kind in ("fn", "region") and not probe and sid_base in self._iso_off and re.search(r"\b(while|for|loop)\b", text) and "{" in text \
+                    and not text.startswith("#[verifier::loop_isolation(false)]"):
+                text = "#[verifier::loop_isolation(false)]\n" + text
+                log["loops verified without loop isolation (edited item, driver retry)"] = 1
             if spec.kind in ("fn", "region") and os.environ.get("VX_LOOP_ISO", "1") == "0" and re.search(r"\b(while|for|loop)\b", text) and "{" in text:
                 # loops see the facts established before them (unmodified variables keep what is known about them): an edit
                 # that introduces a local before a loop then does not need a new invariant clause
